@@ -276,7 +276,8 @@ class Server(base_server.BaseServer):
                         r = self._bad_request(f'{e} {sid}')
                     else:
                         if self.transport(sid) != transport and \
-                                transport != upgrade_header:
+                                not (transport == upgrade_header ==
+                                     'websocket'):
                             self._log_error_once(
                                 f'Invalid transport for session {sid}',
                                 'bad-transport')
